@@ -403,15 +403,12 @@ Definition process_partition (dbg : bool) (single : bool) (n : Z) (client_maxb l
           | None =>
               if off <? hw then
                 if maxb <? limit then
-                  match i32_op dbg (maxb + maxb) with
-                  | Ok incr =>
-                      let maxb' := if limit <? incr then limit else incr in
-                      POk {| ps_fetch := tk_set tp (off, maxb') (ps_fetch s);
-                             ps_retry := if single then ps_retry s else ps_retry s ++ [tp];
-                             ps_empty := ps_empty s |}
-                  | Err e => PErr e s
-                  | Panic w => PPanic w
-                  end
+                  (* saturating_add *)
+                  let incr := Z.max i32_min (Z.min i32_max (maxb + maxb)) in
+                  let maxb' := if limit <? incr then limit else incr in
+                  POk {| ps_fetch := tk_set tp (off, maxb') (ps_fetch s);
+                         ps_retry := if single then ps_retry s else ps_retry s ++ [tp];
+                         ps_empty := ps_empty s |}
                 else if n =? 1 then PErr (EKafka KC_MessageSizeTooLarge) s
                 else POk {| ps_fetch := ps_fetch s;
                             ps_retry := if single then ps_retry s else ps_retry s ++ [tp];
